@@ -123,5 +123,23 @@ class MergeConfig(FnSpec):
         st.ghost["alloc_at_entry"] = st.alloc
 
 
+def _pure_str(q):
+    class PureStr(FnSpec):
+        """diagnostic helper (DESIGN section 1): assumed total, side-effect free, returns a string"""
+        qual = q
+        ret_type = TSTR
+        modifies = frozenset()
+        may_raise = False
+        assumed = "A-DIAG"
+        verify = False
+        check_guarantee = False
+    return PureStr
+
+
 def register(reg):
     reg.add(MergeConfig)
+    for q in ("_utils.qualified_name", "_utils.callable_name", "_utils.format_component_name",
+              "_component.ComponentContext._format_resource_description"):
+        reg.add(_pure_str(q))
+    reg.assumptions_text["A-DIAG"] = ("qualified_name, callable_name, format_component_name, _format_resource_description "
+                                      "(diagnostics only) are total, side-effect free and return a string")
